@@ -23,6 +23,9 @@ struct Caller {
     yields: u8,
     /// spawned only after caller `after` has returned (a late caller)
     after: Option<usize>,
+    /// a parent that polls this call ONCE, then awaits a call on key `park_for` (id 50 + own index), and only then
+    /// drives this call to completion — what a buffered stream behind a full channel does to its futures
+    park_for: Option<u8>,
 }
 #[derive(Clone, Debug)]
 struct Harness {
@@ -31,7 +34,7 @@ struct Harness {
 }
 impl Harness {
     fn to_json(&self) -> Value {
-        json!({"name": self.name, "callers": self.callers.iter().map(|c| json!({"key": c.key, "kind": format!("{:?}", c.kind), "yields": c.yields, "after": c.after})).collect::<Vec<_>>()})
+        json!({"name": self.name, "callers": self.callers.iter().map(|c| json!({"key": c.key, "kind": format!("{:?}", c.kind), "yields": c.yields, "after": c.after, "park_for": c.park_for})).collect::<Vec<_>>()})
     }
     fn from_json(v: &Value) -> Harness {
         Harness {
@@ -49,6 +52,7 @@ impl Harness {
                             },
                             yields: c["yields"].as_u64().unwrap_or(0) as u8,
                             after: c["after"].as_u64().map(|x| x as usize),
+                            park_for: c["park_for"].as_u64().map(|x| x as u8),
                         })
                         .collect()
                 })
@@ -107,6 +111,7 @@ async fn task(id: usize, kind: Kind, yields: u8, hist: Hist, free_running: bool)
 }
 
 fn body(h: Harness, hist: Hist) {
+    sched::set_fine_points(h.callers.iter().any(|c| c.park_for.is_some()));
     let g: Arc<Group<usize, String>> = Arc::new(Group::new());
     let n = h.callers.len();
     let done: Arc<Vec<AtomicUsize>> = Arc::new((0..n).map(|_| AtomicUsize::new(0)).collect());
@@ -119,7 +124,22 @@ fn body(h: Harness, hist: Hist) {
         sched::spawn(move || {
             hist.lock().unwrap().push(Ev::Call(i));
             let key = format!("k{}", c.key);
-            let (r, owner) = sched::block_on(g.work(&key, task(i, c.kind, c.yields, hist.clone(), false)));
+            let (r, owner) = match c.park_for {
+                None => sched::block_on(g.work(&key, task(i, c.kind, c.yields, hist.clone(), false))),
+                Some(k2) => {
+                    let mut fut = Box::pin(g.work(&key, task(i, c.kind, c.yields, hist.clone(), false)));
+                    match sched::poll_once(&mut fut) {
+                        std::task::Poll::Ready(x) => x,
+                        std::task::Poll::Pending => {
+                            let id2 = 50 + i;
+                            hist.lock().unwrap().push(Ev::Call(id2));
+                            let (r2, o2) = sched::block_on(g.work(&format!("k{k2}"), task(id2, Kind::Ok, 0, hist.clone(), false)));
+                            hist.lock().unwrap().push(Ev::Ret(id2, classify(&r2), o2));
+                            sched::block_on(fut)
+                        },
+                    }
+                },
+            };
             hist.lock().unwrap().push(Ev::Ret(i, classify(&r), owner));
             done[i].store(1, Ordering::SeqCst);
         })
@@ -153,8 +173,8 @@ fn body(h: Harness, hist: Hist) {
 
 /// The oracle over one recorded history.  Returns Err(signature, text) on a violation.
 fn check_history(h: &Harness, ev: &[Ev]) -> Result<String, (String, String)> {
-    let key_of = |id: usize| if id >= 100 { None } else { Some(h.callers[id].key) };
-    let kind_of = |id: usize| if id >= 100 { Kind::Ok } else { h.callers[id].kind };
+    let key_of = |id: usize| if id >= 100 { None } else if id >= 50 { h.callers[id - 50].park_for } else { Some(h.callers[id].key) };
+    let kind_of = |id: usize| if id >= 50 { Kind::Ok } else { h.callers[id].kind };
     let mut call_at = std::collections::BTreeMap::new();
     let mut ret_at = std::collections::BTreeMap::new();
     let mut rets = std::collections::BTreeMap::new();
@@ -171,7 +191,9 @@ fn check_history(h: &Harness, ev: &[Ev]) -> Result<String, (String, String)> {
             },
         }
     }
-    let n_expected = h.callers.len() + h.callers.iter().map(|c| c.key).collect::<std::collections::BTreeSet<_>>().len();
+    // nested calls of parked callers happen only when the first poll was pending
+    let n_nested = call_at.keys().filter(|id| **id >= 50 && **id < 100).count();
+    let n_expected = h.callers.len() + n_nested + h.callers.iter().map(|c| c.key).collect::<std::collections::BTreeSet<_>>().len();
     if rets.len() != n_expected {
         return Err(("C20/caller-never-returned".into(), format!("{} of {} calls returned", rets.len(), n_expected)));
     }
@@ -234,7 +256,7 @@ fn check_history(h: &Harness, ev: &[Ev]) -> Result<String, (String, String)> {
 fn harnesses(tier: Tier) -> Vec<Harness> {
     let mut v = vec![];
     let kinds = [Kind::Ok, Kind::Err, Kind::Panic];
-    let c = |key: u8, kind: Kind, yields: u8| Caller { key, kind, yields, after: None };
+    let c = |key: u8, kind: Kind, yields: u8| Caller { key, kind, yields, after: None, park_for: None };
     // two callers, same key: every kind pair, yields 0/1 on each
     for k0 in kinds {
         for k1 in kinds {
@@ -272,10 +294,22 @@ fn harnesses(tier: Tier) -> Vec<Harness> {
         for y in 0..2u8 {
             v.push(Harness {
                 name: format!("late-{k:?}{y}"),
-                callers: vec![c(0, k, y), c(0, Kind::Ok, y), Caller { key: 0, kind: Kind::Ok, yields: 0, after: Some(0) }],
+                callers: vec![c(0, k, y), c(0, Kind::Ok, y), Caller { key: 0, kind: Kind::Ok, yields: 0, after: Some(0), park_for: None }],
             });
         }
     }
+    // parked callers (explored with the points inside the map-lock sections switched on): a caller whose parent
+    // polls it once and then awaits a call on another key, next to an ordinary caller on a third / the same key
+    for k in [Kind::Ok, Kind::Err] {
+        v.push(Harness {
+            name: format!("parked-{k:?}-other-key"),
+            callers: vec![c(0, k, 0), Caller { key: 1, kind: Kind::Ok, yields: 0, after: None, park_for: Some(2) }],
+        });
+    }
+    v.push(Harness {
+        name: "parked-same-key".into(),
+        callers: vec![c(0, Kind::Ok, 0), Caller { key: 0, kind: Kind::Ok, yields: 0, after: None, park_for: Some(1) }],
+    });
     v
 }
 
@@ -462,7 +496,9 @@ fn main() {
                 // bound per harness shape (measured: a 2-caller harness has ~300-470 schedules at bound 2 and
                 // ~6.5 k at bound 3; the 3-thread ones ~14-21 k at bound 1-2): chosen so that every
                 // harness *completes* its bound; the execution cap and the deadline are safety nets only
-                let three = hs[i].callers.len() >= 3;
+                // parked-caller harnesses (two threads, three calls, extra points inside the map-lock sections) are
+                // explored delay-bounded like the three-thread ones
+                let three = hs[i].callers.len() >= 3 || hs[i].callers.iter().any(|c| c.park_for.is_some());
                 // two-caller harnesses: preemption bound 2 (quick) / 3 (thorough), completed.
                 // three-thread harnesses (3 callers, 2 keys, late caller): preemption bounding explodes with the
                 // number of blocking events (free choices at every join/pending/exit), so they are explored
